@@ -93,6 +93,7 @@ ssize_t STUB(write)(int fd, const void *buf, size_t n)
 }
 ssize_t STUB(read)(int fd, void *buf, size_t n)
 {
+	__CPROVER_assert(g_handler_calls == 0, "[C09,C08] the descriptor is drained before the handler runs, never after it: a post made while the handler runs must leave the descriptor readable so that the handler runs again");
 	g_reads++; g_rd_fd = fd; g_rd_n = n;
 	if (g_rd_eintr > 0) { g_rd_eintr--; verif_errno = EINTR; return -1; }
 	if (verif_in.rd_ret < 0) { verif_errno = verif_in.rd_errno; return -1; }
